@@ -1,0 +1,15 @@
+//go:build verif
+
+package rp
+
+// VerifAfterInflightDone, when set, is called by updateKeys right after the
+// result of a finished download has been handed to its waiters. It exists for
+// verification harnesses only (build tag verif) and lets them hold the
+// download goroutine at that point.
+var VerifAfterInflightDone func()
+
+func verifAfterInflightDone() {
+	if f := VerifAfterInflightDone; f != nil {
+		f()
+	}
+}
